@@ -137,7 +137,7 @@ func (g *Gen) Config() Config {
 			a.StartDelay = -int64(time.Hour) * int64(g.pick(2))
 		}
 		if p.Decay && g.chance(0.7) {
-			a.ChangeRate = pickStr(g, "0.99", "0.5", "1.01", "0.999999", "1.5", "0.9")
+			a.ChangeRate = pickStr(g, "0.99", "0.5", "0.999999", "0.9", "0.99", "0.5", "0.75", "1.01", "0.9", "0.999")
 			a.ChangeInterval = int64([]time.Duration{time.Minute, 5 * time.Minute, time.Hour, time.Second}[g.pick(4)])
 			a.WMin = pickStr(g, "0", "0.01", "0.05")
 			a.WMax = pickStr(g, "10", "3", "1000")
@@ -336,7 +336,7 @@ func (g *Gen) govOp() Step {
 		gs.Rate = "1"
 		gs.Interval = 0
 		if g.P.Decay && g.chance(0.6) {
-			gs.Rate = pickStr(g, "0.99", "0.5", "1.01", "0.9", "1.2")
+			gs.Rate = pickStr(g, "0.99", "0.5", "0.9", "0.75", "0.999", "0.5", "1.01", "0.9", "1.2", "0.99")
 			gs.Interval = int64([]time.Duration{time.Second, time.Minute, 5 * time.Minute, time.Hour}[g.pick(4)])
 			// half-configured decay (accepted by governance): rate 1 with an interval, or a rate with interval 0
 			switch g.pick(6) {
